@@ -71,13 +71,13 @@ theorem todoSteps_irrev (e : Env) (lh : Int) (l : List Nat) : ∀ st,
       · obtain ⟨a, b⟩ := i2 x hx
         exact ⟨by omega, b⟩
 
-theorem readmitSteps_irrev (e : Env) (lh : Int) (l : List Nat) : ∀ st x, x ∈ readmitSteps e lh l st →
+theorem repostSteps_irrev (e : Env) (lh : Int) (l : List Nat) : ∀ st x, x ∈ repostSteps e lh l st →
     x.irrev = st.irrev := by
   induction l with
-  | nil => intro st x hx; simp [readmitSteps] at hx
+  | nil => intro st x hx; simp [repostSteps] at hx
   | cons i rest ih =>
     intro st x hx
-    unfold readmitSteps at hx
+    unfold repostSteps at hx
     split at hx
     · rcases List.mem_cons.mp hx with rfl | hx
       · exact doTx_irrev e st lh i
@@ -137,9 +137,9 @@ theorem walkTrace_irrev_sorted (e : Env) (s : St) (lh : Int) (dest : Nat) :
         (walk.undoAll e false (undoTodo e s.pointer dest).1 (rolledBack e s)).1
       rw [hs1] at this
       exact this
-  have hR : ∀ x ∈ walkReadmit e s lh dest false, x.irrev = (walkCore e s lh dest false).1.irrev := by
+  have hR : ∀ x ∈ walkRepost e s lh dest false, x.irrev = (walkCore e s lh dest false).1.irrev := by
     intro x hx
-    obtain ⟨_, A, B, _, _, hxe⟩ := mem_walkReadmit e s lh dest false x hx
+    obtain ⟨_, A, B, _, _, hxe⟩ := mem_walkRepost e s lh dest false x hx
     rw [hxe]; exact foldl_doTx_irrev' e lh A _
   -- the block-boundary part
   have hM : ∀ x ∈ walkMid e s lh dest false, s.irrev ≤ x.irrev ∧ x.irrev ≤ (walkCore e s lh dest false).1.irrev := by
